@@ -9,7 +9,7 @@ RULE = ('patch pairs: detached triangles/rectangles/parallelograms (sizes 0.3-3 
         '(patch aspect < 2) for bounds, zeros, reciprocity and closure; similarity: translation, rotation, uniform scaling (sides kept '
         'in 0.1 m..1 km) of pairs, away from the 1e-3 per-axis cut-off band; non-trivial = every pair')
 ASSUMPTIONS = ['PARTIAL: the bound F <= 1 on the Nusselt branch and the closure within 2.5 % are numerical accuracy facts: MEASURED on the implementation (measured_not_proved), not proved',
-               'the Nusselt-analogue integrator (touching patches) is not modelled in Lean; it is covered by the measured envelope of C06',
+               'the Nusselt-analogue integrator is modelled (Lagrange fit solved in closed form instead of a numerical matrix inverse) and tied at 1e-8; its accuracy is covered by the measured envelope of C06',
                'rotation / scaling invariance of the contour integrator is exact only when no edge has a coordinate extent in (0, 1e-3] (the per-axis cut-off of the code); the boundary stream measures the deviation inside that band']
 EXPLANATION = ('PROVED: Boole rule exact to degree 5 and weights as generated; contour integrator non-negative, symmetric (A_i F_ij = A_j F_ji in exact arithmetic), translation invariant, invariant under axis permutations and mirrorings; '
                'baked matrix zero off the visible list; reciprocity of F\' by construction. MEASURED: 0 <= F <= 1, closure <= 2.5 %, rotation/scaling invariance to 1e-6.')
@@ -60,6 +60,48 @@ def corr_stokes(ctx, n):
             ctx.cmp.ints('corr:_sample_boundary_regular conn', impl[1], [int(x) for x in sec[1]])
         else:
             ctx.cmp.exact('corr:_newton_cotes_4th', [impl], [common.unhex(sec[0][0])])
+
+
+def corr_universal(ctx, n):
+    """`universal_form_factor` (both integrators), `nusselt_analog`, `_surf_sample_regulargrid`
+    vs the Lean model on touching and detached pairs."""
+    common.import_repo()
+    from sparrowpy.form_factor import integration, universal
+    lines, meta = [], []
+    for k in range(n):
+        mode = k % 4
+        if mode == 0:
+            Pi, ni, Pj, nj = geomgen.shared_edge_pair(ctx.rng, float(ctx.rng.uniform(45, 170)))
+        elif mode == 1:
+            Pi, ni, Pj, nj = geomgen.shared_vertex_pair(ctx.rng)
+        elif mode == 2:
+            Pi, ni, Pj, nj = geomgen.shared_edge_pair(ctx.rng, 90.0)          # axis aligned, as in rooms
+        else:
+            Pi, ni, Pj, nj = geomgen.detached_pair(ctx.rng, ['rect', 'para', 'tri'][k % 3])
+        if mode in (0, 1) and ctx.rng.random() < 0.7:
+            Pi, ni, Pj, nj = geomgen.rigid(ctx.rng, Pi, ni, Pj, nj)
+        Ai = ffref.area(Pi)
+        v = universal.universal_form_factor(Pi.copy(), ni.copy(), Ai, Pj.copy(), nj.copy())
+        lines.append(' '.join(['universal', str(len(Pi)), str(len(Pj)), fhex(Ai), fhexs(ni), fhexs(nj), fhexs(Pi), fhexs(Pj)]))
+        meta.append(('universal', float(v)))
+        p0 = Pi.mean(axis=0) + 0.1 * (Pi[0] - Pi.mean(axis=0))
+        a = integration.nusselt_analog(p0.copy(), ni.copy(), Pj.copy(), nj.copy())
+        lines.append(' '.join(['nanalog', str(len(Pj)), fhexs(p0), fhexs(ni), fhexs(nj), fhexs(Pj)]))
+        meta.append(('analog', float(a)))
+        sm = integration._surf_sample_regulargrid(Pi.copy(), 64)
+        lines.append(' '.join(['surfsamples', str(len(Pi)), '64', fhexs(Pi)]))
+        meta.append(('samples', sm))
+        ctx.cases += 1
+        ctx.count('universal.mode_%d' % mode)
+        ctx.nontriv(['u', np.round(Pi, 5).tolist(), np.round(Pj, 5).tolist()])
+    for (kind, impl), line in zip(meta, common.run_driver(lines)):
+        sec = [x.strip().split(' ') for x in line[3:].split('|')]
+        if kind == 'samples':
+            cnt = int(sec[0][0])
+            if ctx.cmp.tag('corr:_surf_sample_regulargrid count', len(impl), cnt) and cnt:
+                ctx.cmp.ulp('corr:_surf_sample_regulargrid', impl, common.parse_floats(sec[1]), rtol=1e-12, atol=1e-13)
+        else:
+            ctx.cmp.ulp('corr:%s' % ('universal_form_factor' if kind == 'universal' else 'nusselt_analog'), [impl], [common.unhex(sec[0][0])], rtol=1e-8, atol=1e-14)
 
 
 def similarity(ctx, n):
@@ -122,6 +164,7 @@ def room_laws(ctx):
 
 def run(ctx):
     corr_stokes(ctx, 30 if ctx.tier == 'quick' else 600)
+    corr_universal(ctx, 24 if ctx.tier == 'quick' else 600)
     similarity(ctx, 9 if ctx.tier == 'quick' else 150)
     for _ in range(3 if ctx.tier == 'quick' else 25):
         room_laws(ctx)
